@@ -38,6 +38,11 @@ func init() {
 
 const c14FloatRegion = "float-const-inexact"
 
+// untyped RUNE constants (utf8.RuneError, unicode.MaxRune, ...) are bound as untyped INTEGER literals
+// (extract.fixConst switches on go/constant's Kind, which knows no rune): the value is exact, the
+// default type is int instead of rune
+const c14RuneRegion = "untyped-rune-const"
+
 func c14Repo() string {
 	if r := os.Getenv("VERIF_REPO"); r != "" {
 		return r
@@ -434,6 +439,9 @@ func c14Region(t *truthObj) string {
 	if t != nil && t.Kind == "ufloat" && !c14IsPow2(t.Den) {
 		return c14FloatRegion
 	}
+	if t != nil && t.Kind == "urune" {
+		return c14RuneRegion
+	}
 	return ""
 }
 
@@ -469,14 +477,17 @@ func c14TextRef(col *bindCollection, g *bindGroup, f *bindFile, r *bindRow) (ok 
 	case "builtin":
 		lower := strings.ToLower(t.Name[:1]) + t.Name[1:]
 		return r.Form == "funclit" || (r.Form == "ident" && r.Ident == lower && c14In(lower, f.Locals)), "a local stand-in for the builtin"
-	case "uint", "ufloat", "ustring":
+	case "uint", "urune", "ufloat", "ustring":
 		c := t.obj.(*types.Const).Val()
 		want = "a literal of value " + c.ExactString()
 		if r.Form != "lit" {
 			return false, want
 		}
 		tok := map[string]token.Token{"INT": token.INT, "FLOAT": token.FLOAT, "STRING": token.STRING, "CHAR": token.CHAR, "IMAG": token.IMAG}[r.Tok]
-		okTok := (t.Kind == "uint" && (tok == token.INT || tok == token.CHAR)) || (t.Kind == "ufloat" && tok == token.FLOAT) || (t.Kind == "ustring" && tok == token.STRING)
+		if t.Kind == "urune" {
+			want = "a CHAR literal (untyped rune constant, default type rune) of value " + c.ExactString()
+		}
+		okTok := (t.Kind == "uint" && (tok == token.INT || tok == token.CHAR)) || (t.Kind == "urune" && tok == token.CHAR) || (t.Kind == "ufloat" && tok == token.FLOAT) || (t.Kind == "ustring" && tok == token.STRING)
 		b := constant.MakeFromLiteral(r.Lit, tok, 0)
 		return okTok && b.Kind() != constant.Unknown && constant.Compare(b, token.EQL, c), want
 	}
@@ -579,7 +590,7 @@ func c14RuntimeRef(col *bindCollection, g *bindGroup, f *bindFile, r *bindRow, v
 		if got.Kind() == constant.Unknown || !constant.Compare(got, token.EQL, want) {
 			return "value " + got.ExactString() + " differs from " + want.ExactString()
 		}
-	case "uint", "ufloat", "ustring":
+	case "uint", "urune", "ufloat", "ustring":
 		if !v.CanInterface() {
 			return "not a constant"
 		}
